@@ -30,4 +30,49 @@ def lemmas(E, REG):
                     rm.res.t == J.mul(rf.res.t, J.C3048))]
     # both raise on exactly the same units
     goals.append(L.goal(E, "C18", "depth_m-and-depth_ft-are-undefined-for-the-same-units", [], J.no_unit(c) == J.no_unit(c)))
+    goals += unit_table_lemma(E)
+    return goals
+
+
+def unit_table_lemma(E):
+    """The unit test of LASFile.read's index-unit detection, taken from the real source (the `if` whose body is
+    `matches.append(index_unit)`) and evaluated on the real defaults.DEPTH_UNITS table with a SYMBOLIC unit string:
+    a unit is recognised as index unit U exactly when it equals one of U's spellings up to letter case."""
+    import ast
+    from pyvc.state import State, OutOfSubset, Goal
+    from pyvc.engine import lift_const
+    fn = E.funcs["las.LASFile.read"]
+    cands = [n for n in ast.walk(fn) if isinstance(n, ast.If) and n.body
+             and (ast.get_source_segment(E.src["las"], n.body[0]) or "").strip().startswith("matches.append(index_unit)")]
+    if len(cands) != 1:
+        raise OutOfSubset("C18 unit lemma: expected exactly one `if ...: matches.append(index_unit)` in LASFile.read, found %d" % len(cands))
+    test = cands[0].test
+    names = {x.id for x in ast.walk(test) if isinstance(x, ast.Name) and isinstance(x.ctx, ast.Load)} \
+        - {x.id for x in ast.walk(test) if isinstance(x, ast.Name) and isinstance(x.ctx, ast.Store)}
+
+    class _Cur:
+        key = "lemma:C18"; hooks = {}; local_types = {}; loops = {}; loop_anchor = {}; modifies = {}
+        abstract_exprs = False; anyraise = False; reveal = (); merge = False
+    E.cur = _Cur(); E.cur_loops = []; E.cur_module = "las"
+    table = E.module_const("defaults", "DEPTH_UNITS")
+    u = z3.String("unit_text")
+    goals = []
+    for iu, poss in table.items():
+        st = State()
+        item = VPy("HeaderItem"); item.attrs = {"unit": VStr(u)}
+        st.env.update({"check_unit": item, "unit": VStr(u), "possibilities": lift_const(tuple(poss)), "index_unit": VStr(iu)})
+        free = names - set(st.env) - {"any", "all", "str"}
+        if free:
+            raise OutOfSubset("C18 unit lemma: the unit test reads other variables: %s" % sorted(free))
+        out = []
+        res = E.ev(test, st, out)
+        if out:
+            raise OutOfSubset("C18 unit lemma: the unit test may raise")
+        # python facts about the table's literals (checked natively by construction: computed with str.upper here)
+        facts = [upper(z3.StringVal(p_)) == z3.StringVal(p_.upper()) for p_ in poss]
+        spec = z3.Or([upper(u) == z3.StringVal(p_.upper()) for p_ in poss])
+        for n_, (s1, v) in enumerate(res):
+            tv = v.t if isinstance(v, VBool) else truthy(E.to_obj(v))
+            goals.append(Goal("lemma:C18:index-unit-%s-recognised-iff-equal-to-a-spelling-up-to-case#%d" % (iu, n_),
+                              facts + list(s1.pc), tv == spec, "lemma", "lemma:C18"))
     return goals
